@@ -5,7 +5,7 @@ from ..gen import grel
 
 NONCOLLIDING = ["zz_missing", "qqq_nope", "no_such_col", "xcol9"]
 STD_COLLIDING = ["count", "min", "max", "sum", "text", "date", "math", "average", "first", "rank", "lag", "std", "all", "any", "round", "abs",
-                 "lower", "upper", "length", "now", "int", "float", "bool", "year", "this", "that"]
+                 "lower", "upper", "length", "now", "int", "float", "bool", "year", "that"]
 ALL_TABLE_COLS = sorted({c for cols in grel.SCHEMA.values() for c, _ in cols})
 
 
@@ -43,7 +43,7 @@ def edits_dropped_column(rng, prog):
             t = {"t": "aggregate", "items": [["zs", ["agg", "sum", ref]]]}
         p = copy.deepcopy(prog)
         p["main"] = p["main"][:c["at"]] + [t]
-        out.append((p, "dropped_column/%s/%s%s" % (pname, use, "/qualified" if qual else ""), name))
+        out.append((p, "dropped_column/%s%s/%s%s" % (pname, (":" + name) if pname == "std_colliding" else "", use, "/qualified" if qual else ""), name))
     return out
 
 
